@@ -324,7 +324,7 @@ pub fn has_cond(arch: Arch) -> bool {
 
 pub fn num_cc(arch: Arch) -> u8 {
     match arch.family() {
-        "x86" => 17, // 16 jcc + loop
+        "x86" => 19, // 16 jcc + loop + jecxz (e3) + jcxz/jecxz with address-size prefix (67 e3)
         "mips" => 6,
         "ppc" => 0,
         _ => 14 + 4, // b.cond x14, cbz, cbnz, tbz, tbnz
@@ -338,10 +338,18 @@ pub fn slot_len(arch: Arch, s: &Slot) -> usize {
             Slot::Op { form, a, b, c, imm } => x86_op(*form, *a, *b, *c, *imm).len(),
             Slot::Pad(n) => (*n as usize).clamp(1, 9),
             Slot::Cond { cc, short, .. } => {
-                if *cc % 17 == 16 || *short {
-                    2
-                } else {
-                    6
+                match *cc % 19 {
+                    16 => 2,
+                    17 => {
+                        if arch == Arch::Amd64 {
+                            3
+                        } else {
+                            2
+                        }
+                    }
+                    18 => 3,
+                    _ if *short => 2,
+                    _ => 6,
                 }
             }
             Slot::Jump { short, .. } => {
@@ -378,7 +386,11 @@ pub fn slot_len(arch: Arch, s: &Slot) -> usize {
 
 /// x86: can this branch be encoded in its short form?
 pub fn x86_short_fits(addr: u64, target: u64) -> bool {
-    let d = target.wrapping_sub(addr.wrapping_add(2)) as i64;
+    x86_rel8_fits(addr, 2, target)
+}
+
+pub fn x86_rel8_fits(addr: u64, insn_len: u64, target: u64) -> bool {
+    let d = target.wrapping_sub(addr.wrapping_add(insn_len)) as i64;
     (-128..=127).contains(&d)
 }
 
@@ -389,10 +401,16 @@ pub fn encode(arch: Arch, s: &Slot, addr: u64, target: u64) -> Vec<u8> {
             Slot::Op { form, a, b, c, imm } => x86_op(*form, *a, *b, *c, *imm),
             Slot::Pad(n) => X86_NOPS[(*n as usize).clamp(1, 9) - 1].to_vec(),
             Slot::Cond { cc, short, .. } => {
-                let cc = cc % 17;
+                let cc = cc % 19;
                 if cc == 16 {
                     let d = target.wrapping_sub(addr + 2) as u8;
                     vec![0xe2, d]
+                } else if cc == 17 && arch != Arch::Amd64 {
+                    // jecxz (plain e3 is jrcxz in 64-bit mode, which the lifter does not accept)
+                    vec![0xe3, target.wrapping_sub(addr + 2) as u8]
+                } else if cc >= 17 {
+                    // 32-bit mode: jcxz; 64-bit mode: jecxz
+                    vec![0x67, 0xe3, target.wrapping_sub(addr + 3) as u8]
                 } else if *short {
                     let d = target.wrapping_sub(addr + 2) as u8;
                     vec![0x70 + cc, d]
